@@ -344,8 +344,13 @@ class G:
                 if r.random() < 0.8:
                     sc = {"params": a["params"]}
                     x = r.random()
-                    if x < 0.4:
+                    own = [e["fluent"] for e in a["effects"] if not e["forall"] and next(f for f in self.fluents if f["name"] == e["fluent"][1])["type"][0] in ("int", "real")]
+                    if x < 0.3:
                         costs[a["name"]] = ["i", r.choice([0, 1, 2, 3])]
+                    elif x < 0.65 and own:
+                        # the cost reads a fluent that the action itself modifies: pre-state vs post-state evaluation differ
+                        fe = r.choice(own)
+                        costs[a["name"]] = fe if r.random() < 0.5 else ["plus", fe, ["i", r.choice([1, 2])]]
                     else:
                         costs[a["name"]] = self.num(1, sc)
             d = ["i", r.choice([0, 1])] if r.random() < 0.5 else None
